@@ -37,15 +37,18 @@ type Op struct {
 
 // Scenario is a complete controlled case.
 type Scenario struct {
-	Skip      bool        `json:"skip,omitempty"`
-	Delay     bool        `json:"delay,omitempty"`
-	Suppress  bool        `json:"suppress,omitempty"`
-	GlobalCBs bool        `json:"global_cbs,omitempty"`
-	NStatic   int         `json:"n_static,omitempty"`
-	NWatch    int         `json:"n_watch"`
-	Defaults  SimDefaults `json:"defaults"`
-	Init      []SimLayer  `json:"init"`
-	Ops       []Op        `json:"ops"`
+	Skip      bool `json:"skip,omitempty"`
+	Delay     bool `json:"delay,omitempty"`
+	Suppress  bool `json:"suppress,omitempty"`
+	GlobalCBs bool `json:"global_cbs,omitempty"`
+	NStatic   int  `json:"n_static,omitempty"`
+	// NStaticAfter non-watching sources are placed AFTER the watching ones, so
+	// they take precedence over every later watcher update
+	NStaticAfter int         `json:"n_static_after,omitempty"`
+	NWatch       int         `json:"n_watch"`
+	Defaults     SimDefaults `json:"defaults"`
+	Init         []SimLayer  `json:"init"`
+	Ops          []Op        `json:"ops"`
 }
 
 // Violation found while running a scenario; Tag names the aspect (and so the
@@ -337,7 +340,10 @@ func (sc *Scenario) validate() string {
 	if sc.NWatch < 0 || sc.NWatch > 3 || sc.NStatic < 0 || sc.NStatic > 2 {
 		return "bad source counts"
 	}
-	if len(sc.Init) != sc.NStatic+sc.NWatch {
+	if sc.NStaticAfter < 0 || sc.NStaticAfter > 2 {
+		return "bad source counts"
+	}
+	if len(sc.Init) != sc.NStatic+sc.NWatch+sc.NStaticAfter {
 		return "init layers do not match sources"
 	}
 	return ""
@@ -392,6 +398,9 @@ func (r *run) main() {
 		w := &fake.Watcher{V: sc.Init[sc.NStatic+i].Value(r.pt)}
 		r.ws = append(r.ws, w)
 		srcs = append(srcs, w)
+	}
+	for i := 0; i < sc.NStaticAfter; i++ {
+		srcs = append(srcs, &fake.Static{V: sc.Init[sc.NStatic+sc.NWatch+i].Value(r.pt)})
 	}
 	p := dials.Params[SimCfg]{SkipInitialVerification: sc.Skip, DelayInitialVerification: sc.Delay, CallGlobalCallbacksAfterVerificationEnabled: sc.Suppress}
 	if sc.GlobalCBs {
